@@ -24,7 +24,7 @@ def bindings():
 
 
 class Pre:
-    def __init__(self, h, bind):
+    def __init__(self, h, bind, nested=False):
         self.h = h
         h.reset()
         lawcls = h.fn(LAWS)
@@ -37,6 +37,8 @@ class Pre:
             for f in ("_laws",) if o.name in US else ("_applies_to",):
                 if f not in o.fields:
                     raise SourceError(f"anchor field {o.cls.name}.{f} is not established by the constructor")
+        if nested:
+            h.call(h.I.getattr(O["u1"], "add_vertex"), O["u2"])      # u2 is a member vertex of u1 (universes of universes)
         for u in US:
             O[u].fields["_laws"] = O[bind[u]] if bind[u] else None
         for l in LS:
@@ -106,8 +108,9 @@ def run(ctx):
         # the same assignments written in key style (BaseObject supports obj["name"] = value as attribute access by key)
         ops += [("u['laws']=", u, l) for u in US for l in ("L1", "L3", None)] + [("L['applies_to']=", l, u) for l in ("L1", "L3") for u in US + (None,)]
         ops += [("Universe()", None, None)] + [("Universe(laws=)", None, l) for l in LS]
-        for op, x, y in ops:
-            p = Pre(h, bind)
+        ops = [o_ + (False,) for o_ in ops] + [o_ + (True,) for o_ in ops if o_[0] in ("u.laws=", "L.applies_to=")]
+        for op, x, y, nested in ops:
+            p = Pre(h, bind, nested)
             model = {k: dict(v) for k, v in p.pre.items()}
             extra = None
             try:
@@ -177,8 +180,8 @@ def run(ctx):
                     if why is None and not (g_.kind == "return" and ((g_.value is None and want_ is None) or (isinstance(g_.value, Obj) and g_.value.name == want_))):
                         why = f"afterwards {u_}.laws reads {g_!r}, the model has {want_}"
                 op = {"u['laws']=": "u.laws=", "L['applies_to']=": "L.applies_to="}[op]
-            cls = classify(op, x, y, bind) + (",key-style-assignment" if keystyle else "")
-            res.ob(why is None, sig=(tuple(sorted(bind.items())), op, x, y), sample={"binding": bind, "call": op, "target": x, "value": y, "outcome": repr(out), "post": post})
+            cls = classify(op, x, y, bind) + (",key-style-assignment" if keystyle else "") + (",universe-holds-a-universe-as-vertex" if nested else "")
+            res.ob(why is None, sig=(tuple(sorted(bind.items())), op, x, y, nested), sample={"binding": bind, "call": op, "target": x, "value": y, "outcome": repr(out), "post": post})
             if why:
                 res.violation("I19-STEP", {"u.laws=": UNI + ".laws[set]", "L.applies_to=": LAWS + ".applies_to[set]"}.get(op, UNI + ".__init__"), cls,
                               f"{op} target={x} value={y} on binding {bind}: {why}", detail=f"pre {p.pre}\npost {post}\nmodel {model}", replay=replay(bind, op, x, y))
@@ -283,6 +286,22 @@ def readonly(ctx, h, res):
         res.ob(ok2, sig=("readonly", a))
         if not ok2:
             res.violation("READONLY", LAWS + "." + a, "assign", f"after assigning (-> {s!r}) and deleting (-> {dl}) UniverseLaws.{a} the attribute reads {g2!r}: rule attributes cannot be changed after construction")
+    # positional construction in the documented parameter order (edge_whitelist, mixed_links, cycles, multipath, multiverse)
+    try:
+        ptoks = [Tok(30 + i, f"positional_{a}") for i, a in enumerate(ATTRS[1:])]
+        op_ = h.call(lawcls, None, *ptoks)
+        if op_.kind == "return":
+            for a, t_ in zip(ATTRS[1:], ptoks):
+                g_ = h.getattr(op_.value, a)
+                n += 1
+                okp = g_.kind == "return" and g_.value is t_
+                res.ob(okp, sig=("positional", a))
+                if not okp:
+                    res.violation("READONLY", LAWS + "." + a, "positional-construction", f"UniverseLaws(None, mixed_links, cycles, multipath, multiverse) given positionally: {a} reads back {g_!r}, not the value passed in that position")
+        else:
+            res.violation("READONLY", LAWS + ".__init__", "positional-construction", f"UniverseLaws with five positional arguments gives {op_!r}")
+    except Unknown as u:
+        res.undecide(f"UniverseLaws positional construction: {u}")
     # an empty whitelist reads back empty whatever the caller later does with the dictionary it passed
     for label, arg in (("empty", DictV()), ("empty-inner", DictV([[K1, DictV()]]))):
         try:
